@@ -377,6 +377,9 @@ func ruleV4Filter(c *Ctx, rule string) {
 			if nn == -1 {
 				nn = chainResultNonNil(c, h.fn, h.di, e.St)
 			}
+			if nn == -1 {
+				nn = chainResultNilState(c, h.ss.Ex, h.fn, h.di, e.St)
+			}
 		}
 		v := and3(p, o, r, m, nn)
 		if v == 0 {
@@ -1070,6 +1073,38 @@ func isFlagInterface(c *Ctx, k *ssa.Const) bool {
 // value != nil" (1 non-nil, 0 nil, -1 not decided), found as a decided nil
 // test whose operand is, statically, the loop's exit value (possibly handed
 // back through the helper that holds the loop).
+// chainResultNilState: what the path knows about the chain's result, asked of
+// every value the function compares with nil whose origin is the dispatch
+// loop's exit value (the result may have travelled through a helper's result
+// tuple and been tested anywhere - in a branch, or as a boolean argument).
+func chainResultNilState(c *Ctx, ex *Explorer, fn *ssa.Function, di *dispatchInfo, st *State) int {
+	res := -1
+	eachInstr(fn, func(in ssa.Instruction) {
+		cmp, ok := in.(*ssa.BinOp)
+		if !ok || res != -1 || (cmp.Op != token.EQL && cmp.Op != token.NEQ) {
+			return
+		}
+		v := cmp.X
+		if isNilConst(cmp.X) {
+			v = cmp.Y
+		} else if !isNilConst(cmp.Y) {
+			return
+		}
+		if in.Parent() != fn {
+			return // values of helper frames are not resolvable once the frame is gone
+		}
+		if ok, _ := staticOrigins(c, fn, v, func(x ssa.Value) bool { return x == ssa.Value(di.ExitPhi) }); !ok {
+			return
+		}
+		if ns, _ := ex.NilState(st, v); ns == 0 {
+			res = 1
+		} else if ns == 1 {
+			res = 0
+		}
+	})
+	return res
+}
+
 func chainResultNonNil(c *Ctx, fn *ssa.Function, di *dispatchInfo, st *State) int {
 	for _, k := range sortedKeys(st.hist) {
 		f := st.hist[k]
